@@ -45,13 +45,22 @@ def p_const(c):
 def p_path(lhs):
     import stix2.patterns as P
     steps = []
+
+    def name_of(comp):
+        # the parser keeps the quotes of a quoted first step (and of a quoted indexed step) inside the name, and drops them on later plain steps; what a step
+        # denotes is the text between the quotes with the escapes resolved
+        import re
+        n = comp.property_name
+        if isinstance(n, str) and len(n) >= 2 and n[0] == "'" and n[-1] == "'":
+            n = re.sub(r"\\(.)", r"\1", n[1:-1], flags=re.S)
+        return n
     for comp in lhs.property_path:
         if isinstance(comp, P.ListObjectPathComponent):
-            steps.append({"s": "idx", "name": comp.property_name, "i": str(comp.index)})
+            steps.append({"s": "idx", "name": name_of(comp), "i": str(comp.index)})
         elif isinstance(comp, P.ReferenceObjectPathComponent):
-            steps.append({"s": "ref", "name": comp.property_name, "i": ""})
+            steps.append({"s": "ref", "name": name_of(comp), "i": ""})
         else:
-            steps.append({"s": "key", "name": comp.property_name, "i": ""})
+            steps.append({"s": "key", "name": name_of(comp), "i": ""})
     return lhs.object_type_name, steps
 
 
@@ -165,6 +174,10 @@ def rand_cmp(rng, vocab=True):
         ("ipv4-addr", [{"s": "key", "name": "value", "i": ""}]), ("ipv6-addr", [{"s": "key", "name": "value", "i": ""}]),
         ("windows-registry-key", [{"s": "key", "name": "key", "i": ""}]),
         ("a", [{"s": "key", "name": "b", "i": ""}]),
+        # indexed steps whose name needs quoting, first and later in the path; an index on the first step
+        ("file", [{"s": "idx", "name": "x-list", "i": rng.choice(["1", "*"])}, {"s": "key", "name": "c", "i": ""}]),
+        ("x-custom", [{"s": "key", "name": "a-b", "i": ""}, {"s": "idx", "name": "c-d", "i": rng.choice(["0", "*", "10"])}, {"s": "key", "name": "e", "i": ""}]),
+        ("process", [{"s": "idx", "name": "opened_connection_refs", "i": "0"}, {"s": "ref", "name": "src_ref", "i": ""}, {"s": "key", "name": "value", "i": ""}]),
     ])
     op = rng.choice(CMP_OPS)
     strs = ["a", "", "it's", "back\\slash", "\\'", "''", "\\\\unc\\path", "ünï", "\U0001f600", "%a_b", "^x.*$", "1.2.3.4/8", "HKEY_LOCAL_MACHINE\\Foo", "::1/64"]
@@ -173,7 +186,7 @@ def rand_cmp(rng, vocab=True):
             lambda: {"t": "bin", "s": rng.choice(["aGVsbG8=", "AA=="])}]
     if op == "IN":
         gen = rng.choice(pool[:3])
-        const = {"t": "list", "items": [gen() for _ in range(rng.randint(1, 3))]}
+        const = {"t": "list", "items": [gen() for _ in range(rng.choice([0, 1, 1, 2, 3]))]}       # the grammar admits the empty set
     elif op in ("LIKE", "MATCHES", "ISSUBSET", "ISSUPERSET"):
         const = pool[0]()
     elif op in ("=", "!="):
